@@ -29,6 +29,13 @@ uint64_t nd_raw(void)
 }
 void v_assert_fail(const char *msg) { printf("ASSERT-FAIL %s\n", msg); fflush(stdout); exit(1); }
 void v_assume_fail(const char *msg) { printf("ASSUME-FAIL %s\n", msg); fflush(stdout); exit(0); }
+/* C03 monitor, native side: the replay build links with -Wl,--wrap=malloc,... */
+void *__real_malloc(size_t); void *__real_calloc(size_t, size_t); void *__real_realloc(void *, size_t); void __real_free(void *);
+static void rt_hit(const char *what) { if(verif_rt_section) { verif_rt_section = 0; v_assert_fail(what); } }
+void *__wrap_malloc(size_t n) { rt_hit("C03 heap allocation (malloc) inside the realtime section"); return __real_malloc(n); }
+void *__wrap_calloc(size_t a, size_t b) { rt_hit("C03 heap allocation (calloc) inside the realtime section"); return __real_calloc(a, b); }
+void *__wrap_realloc(void *p, size_t n) { rt_hit("C03 heap allocation (realloc) inside the realtime section"); return __real_realloc(p, n); }
+void __wrap_free(void *p) { rt_hit("C03 heap deallocation (free) inside the realtime section"); __real_free(p); }
 #ifndef ND_NO_MAIN
 void harness(void);
 int main(int argc, char **argv) { harness(); printf("REPLAY-END ok\n"); return 0; }
